@@ -46,13 +46,13 @@ type Case struct {
 
 // Obs is the projected reply of the API.
 type Obs struct {
-	Kind  string `json:"kind"`            // value | error | gopanic | interrupted | wedged | killed
-	Class string `json:"class,omitempty"` // error: class name ("value": a non-Error value was thrown, "go": a plain Go error)
-	Msg   string `json:"msg,omitempty"`
-	Val   string `json:"val,omitempty"`  // fam rec/irq: the projected value
+	Kind  string   `json:"kind"`            // value | error | gopanic | interrupted | wedged | killed
+	Class string   `json:"class,omitempty"` // error: class name ("value": a non-Error value was thrown, "go": a plain Go error)
+	Msg   string   `json:"msg,omitempty"`
+	Val   string   `json:"val,omitempty"`  // fam rec/irq: the projected value
 	Post  []string `json:"post,omitempty"` // accessors of the post phase that panicked, "<accessor>: <Go type>: <message>"
-	After string `json:"after,omitempty"`
-	Ms    int64  `json:"ms,omitempty"`
+	After string   `json:"after,omitempty"`
+	Ms    int64    `json:"ms,omitempty"`
 }
 
 var reAddr = regexp.MustCompile(`0x[0-9a-f]+`)
